@@ -76,20 +76,16 @@ impl<T: RtpsWriter> DataWriterEntity<T> {
         message_writer: &(impl WriteMessage + ?Sized),
         runtime: &impl DdsRuntime,
     ) -> DdsResult<()> {
-        if !self
+        // The instance is registered only once every resource limit has been checked:
+        // a refused write must leave no trace (lookup_instance, max_instances)
+        let is_registered = self
             .registered_instance_info
             .iter()
-            .any(|x| x.instance_handle == sample_instance_handle)
+            .any(|x| x.instance_handle == sample_instance_handle);
+        if !is_registered
+            && !(self.registered_instance_info.len() < self.qos.resource_limits.max_instances)
         {
-            if self.registered_instance_info.len() < self.qos.resource_limits.max_instances {
-                self.registered_instance_info.push(RegisteredInstanceInfo {
-                    instance_handle: sample_instance_handle,
-                    last_write_time: None,
-                    samples: VecDeque::new(),
-                });
-            } else {
-                return Err(DdsError::OutOfResources);
-            }
+            return Err(DdsError::OutOfResources);
         }
 
         if let Length::Limited(max_samples_per_instance) =
@@ -101,15 +97,16 @@ impl<T: RtpsWriter> DataWriterEntity<T> {
                 HistoryQosPolicyKind::KeepLast(depth)
                     if depth as i32 <= max_samples_per_instance => {}
                 _ => {
-                    if let Some(s) = self
+                    // Only Alive changes count towards the resource limits
+                    // (an instance that is not registered yet holds no samples)
+                    let instance_samples = self
                         .registered_instance_info
                         .iter()
                         .find(|x| x.instance_handle == sample_instance_handle)
-                    {
-                        // Only Alive changes count towards the resource limits
-                        if s.samples.len() >= max_samples_per_instance as usize {
-                            return Err(DdsError::OutOfResources);
-                        }
+                        .map(|s| s.samples.len())
+                        .unwrap_or(0);
+                    if instance_samples >= max_samples_per_instance as usize {
+                        return Err(DdsError::OutOfResources);
                     }
                 }
             }
@@ -124,6 +121,14 @@ impl<T: RtpsWriter> DataWriterEntity<T> {
             if total_samples >= max_samples as usize {
                 return Err(DdsError::OutOfResources);
             }
+        }
+
+        if !is_registered {
+            self.registered_instance_info.push(RegisteredInstanceInfo {
+                instance_handle: sample_instance_handle,
+                last_write_time: None,
+                samples: VecDeque::new(),
+            });
         }
 
         self.last_change_sequence_number += 1;
